@@ -483,6 +483,32 @@ fn c04_full_sig(sub: &str, kind: &str, r: &T) -> String {
 
 fn check_c04(st: &mut Stats, ctx: &mut Ctx, r: &T, extra_envs: &[T], entry: OptEntry, sub: &str) {
     let opt = optimise(r, entry);
+    judge_c04(st, ctx, r, opt, extra_envs, &format!("{:?}", entry), json!(null), sub)
+}
+
+/// `(opt (q . R))` for each R of a history, in order, on ONE CompilerOperators instance and allocator:
+/// the optimiser's memo (opt_memo) is shared by all calls, as it is during one classic compilation.
+fn optimise_history(hist: &[T]) -> Vec<Result<T, String>> {
+    let hist: Vec<T> = hist.to_vec();
+    let n = hist.len();
+    match catch(std::panic::AssertUnwindSafe(move || {
+        let mut a = Allocator::new();
+        let ops = chialisp::classic::clvm_tools::stages::stage_2::operators::run_program_for_search_paths("*verif*", &[], false);
+        let mut out = vec![];
+        for r in &hist {
+            let prog = T::list(&[T::a(b"opt"), quote(r.clone())]).to_node(&mut a);
+            let nil = a.nil();
+            out.push(ops.run_program(&mut a, prog, nil, None).map(|red| T::from_node(&a, red.1)).map_err(|e| format!("{}", e)));
+        }
+        out
+    })) {
+        Ok(x) => x,
+        Err(p) => (0..n).map(|_| Err(format!("PANIC: {}", p))).collect(),
+    }
+}
+
+#[allow(clippy::too_many_arguments)]
+fn judge_c04(st: &mut Stats, ctx: &mut Ctx, r: &T, opt: Result<T, String>, extra_envs: &[T], entry: &str, replay_extra: serde_json::Value, sub: &str) {
     ctx.reset();
     let rn = r.to_node(&mut ctx.a);
     let on = match &opt {
@@ -518,8 +544,8 @@ fn check_c04(st: &mut Stats, ctx: &mut Ctx, r: &T, extra_envs: &[T], entry: OptE
         match (&opt, on) {
             (Err(_), _) | (Ok(_), None) => {
                 st.outcome("optimiser-rejects");
-                let replay = json!({"kind": "c04", "prog": r.hex(), "env": env_replay(ctx), "entry": format!("{:?}", entry)});
-                st.violation(&c04_full_sig(sub, "rejects", r), format!("{:?} rejects {} ({}) although it evaluates to {} in env {}", entry, r.short(), opt.as_ref().err().cloned().unwrap_or_default(), ctx.t(v).short(), env_desc(ctx)), r.bytes().len(), replay);
+                let replay = json!({"kind": "c04", "prog": r.hex(), "env": env_replay(ctx), "entry": entry, "history": replay_extra});
+                st.violation(&c04_full_sig(sub, "rejects", r), format!("{} rejects {} ({}) although it evaluates to {} in env {}", entry, r.short(), opt.as_ref().err().cloned().unwrap_or_default(), ctx.t(v).short(), env_desc(ctx)), r.bytes().len(), replay);
             }
             (Ok(o), Some(on)) => match ctx.run_node(on, *e) {
                 NOut::Val(g) if ctx.node_eq(g, v) => {
@@ -539,10 +565,10 @@ fn check_c04(st: &mut Stats, ctx: &mut Ctx, r: &T, extra_envs: &[T], entry: OptE
                         NOut::Err(e) => format!("error {}", e),
                         NOut::Limit => "limit".to_string(),
                     };
-                    let replay = json!({"kind": "c04", "prog": r.hex(), "env": env_replay(ctx), "entry": format!("{:?}", entry)});
+                    let replay = json!({"kind": "c04", "prog": r.hex(), "env": env_replay(ctx), "entry": entry, "history": replay_extra});
                     st.violation(
                         &c04_full_sig(sub, "changes-result", r),
-                        format!("{:?}: {} -> {} ; in env {} original gives {}, optimised gives {}", entry, r.short(), o.short(), env_desc(ctx), ctx.t(v).short(), got),
+                        format!("{}: {} -> {} ; in env {} original gives {}, optimised gives {}", entry, r.short(), o.short(), env_desc(ctx), ctx.t(v).short(), got),
                         r.bytes().len(),
                         replay,
                     );
@@ -591,7 +617,14 @@ pub fn c04(thorough: bool, replay: Option<String>) -> i32 {
             _ => OptEntry::OptimizeSexp,
         };
         for _ in 0..2 {
-            check_c04(&mut st, &mut ctx, &p, &[], entry, "replay");
+            if let Some(h) = r["history"].as_array() {
+                let mut hist: Vec<T> = h.iter().map(|x| t_from_hex(x.as_str().unwrap())).collect();
+                hist.push(p.clone());
+                let res = optimise_history(&hist).pop().unwrap();
+                judge_c04(&mut st, &mut ctx, &p, res, &[], "opt-operator-after-history", r["history"].clone(), "replay");
+            } else {
+                check_c04(&mut st, &mut ctx, &p, &[], entry, "replay");
+            }
         }
         rep.add_sub("replay", "one case", 1, false, false, st);
         return rep.finish();
@@ -678,6 +711,34 @@ pub fn c04(thorough: bool, replay: Option<String>) -> i32 {
     let n = es.total / stride;
     let (st, capped) = par_range(n, 256, cap, || Ctx::new(&envs_e), |ctx, st, i| check_c04(st, ctx, &es.get(i * stride), &[], OptEntry::OptimizeSexp, "expr"));
     rep.add_sub("expressions", &format!("well-formed expressions of nesting depth <= 2 ({} in total; {}), each in 3 environments", es.total, if stride == 1 { "all".to_string() } else { format!("every {}th by index, a fixed sub-enumeration", stride) }), n, stride == 1, capped, st);
+
+    // (i-memo) histories of optimiser calls sharing one memo (the `opt` operator of one CompilerOperators instance)
+    {
+        // alphabet: every tree with <= 2 leaves, plus every tree with <= 3 (thorough 4) leaves that the optimiser rewrites
+        let mut alpha: Vec<T> = vec![];
+        let s2 = TreeSpace::new(ops_core(), 2);
+        for i in 0..s2.total {
+            alpha.push(s2.get(i));
+        }
+        let sk = TreeSpace::new(ops_core(), if thorough { 4 } else { 3 });
+        for i in s2.total..sk.total {
+            let t = sk.get(i);
+            if let Ok(o) = optimise(&t, OptEntry::OptimizeSexp) {
+                if o != t {
+                    alpha.push(t);
+                }
+            }
+        }
+        let na = alpha.len() as u64;
+        let n = na * na;
+        let (st, capped) = par_range(n, 512, cap, || Ctx::new(&envs_i), |ctx, st, i| {
+            let (first, second) = (&alpha[(i / na) as usize], &alpha[(i % na) as usize]);
+            let mut res = optimise_history(&[first.clone(), second.clone()]);
+            let r2 = res.pop().unwrap();
+            judge_c04(st, ctx, second, r2, &[], "opt-operator-after-history", json!([first.hex()]), "memo-history");
+        });
+        rep.add_sub("memo-histories", &format!("every ordered pair (R1, R2) over {} trees (all with <= 2 leaves, and every tree with <= {} leaves that the optimiser rewrites): (opt R1) then (opt R2) on one CompilerOperators instance, i.e. with the optimiser memo shared as during one classic compilation; R2's result is judged in 4 environments", na, if thorough { 4 } else { 3 }), n, true, capped, st);
+    }
 
     // (ii) path family
     let (paths, firsts) = path_family(thorough);
